@@ -284,7 +284,92 @@ func checkAtomicOwnership(c *Check) {
 			}
 		}
 	}
-	c.Expect("2/atomic-ownership", 4)
+	// a constructor whose failure cleanup removes the group when the handle owns it ('!existing') must build the
+	// handle as NOT owning and flip it only at the successful mkdir of the group itself; a handle born owning makes
+	// every failure before that point remove a group somebody else created
+	for _, fn := range p.PkgFuncs(cg) {
+		if fn.Parent() != nil {
+			continue
+		}
+		for _, b := range fn.Blocks {
+			for _, in := range b.Instrs {
+				df, ok := in.(*ssa.Defer)
+				if !ok {
+					continue
+				}
+				cl := spawnedFn(&df.Call)
+				if cl == nil || !inModule(cl) || len(cl.Blocks) == 0 {
+					continue
+				}
+				removesUnderOwning := false
+				ccd := controlDeps(cl)
+				for _, ci := range callInstrs(cl) {
+					_, callee := calleeOf(ci)
+					if callee == nil || !inModule(callee) || !reachesCall(callee, 1, nameIs("syscall.Rmdir", "os.Remove")) {
+						continue
+					}
+					// the group removed is the handle's own path (a cleanup that walks a list of the directories this
+					// call created is keyed on what was created, not on the flag)
+					argD := ""
+					if len(ci.Common().Args) > 0 {
+						argD = describe(ci.Common().Args[0])
+					}
+					for _, a := range Support(ccd.guardOf(ci.Block())) {
+						if strings.HasSuffix(a, ".existing") && strings.HasSuffix(argD, ".path") && strings.TrimSuffix(a, ".existing") == strings.TrimSuffix(argD, ".path") {
+							removesUnderOwning = true
+						}
+					}
+				}
+				if !removesUnderOwning {
+					continue
+				}
+				// the literal of the handle: stores to .existing on a fresh object that dominate the defer
+				bornNotOwning := false
+				for _, b2 := range fn.Blocks {
+					for _, in2 := range b2.Instrs {
+						st, ok := in2.(*ssa.Store)
+						if !ok {
+							continue
+						}
+						fa, ok := st.Addr.(*ssa.FieldAddr)
+						if !ok || fieldName(fa.X.Type(), fa.Field) != "existing" {
+							continue
+						}
+						if _, isAlloc := fa.X.(*ssa.Alloc); isAlloc && (b2 == df.Block() || b2.Dominates(df.Block())) {
+							if v, isB := constBool(st.Val); isB && v {
+								bornNotOwning = true
+							}
+						}
+					}
+				}
+				c.Cond(bornNotOwning, "2/atomic-ownership", cg+"."+fn.Name()+":born-not-owning", p.Pos(df.Pos()), "the handle is built as not owning before the failure cleanup is registered",
+					"the handle is built owning ('existing' unset) while the failure cleanup removes the group whenever the handle owns it: a failure before the group's own mkdir removes a group that already existed")
+			}
+		}
+	}
+	c.Expect("2/atomic-ownership", 5)
+	// the v1 path helper hands back the controller's directory on every return, also next to an error: its caller
+	// keeps using the path when the error is "already exists" (a handle on a pre-existing group); an empty path
+	// there yields controllers whose limit writes and AddProc silently do nothing
+	if cp := p.Func(cg, "CreateV1ControllerPath"); cp != nil {
+		okPath := true
+		where := ""
+		nRet := 0
+		for _, b := range cp.Blocks {
+			ret, ok := b.Instrs[len(b.Instrs)-1].(*ssa.Return)
+			if !ok {
+				continue
+			}
+			nRet++
+			v := retVal(ret, 0)
+			if _, isConst := v.(*ssa.Const); isConst {
+				okPath = false
+				where = p.Pos(ret.Pos())
+			}
+		}
+		c.Cond(okPath && nRet > 0, "2/atomic-ownership", cg+".CreateV1ControllerPath:path-on-every-return", p.Pos(cp.Pos()), "the directory path is returned on every return",
+			"CreateV1ControllerPath returns a constant instead of the directory path at "+where+": with 'already exists' the caller builds a controller with an empty path, whose SetXxx / AddProc are silent no-ops")
+	}
 	// EnsureDirExists (v1 path): Mkdir of the path itself, no Stat
 	if ed := p.Func(cg, "EnsureDirExists"); ed != nil {
 		okMk, noStat := false, !reachesCall(ed, 0, nameIs("os.Stat", "os.Lstat"))
@@ -301,7 +386,7 @@ func checkAtomicOwnership(c *Check) {
 		ok := false
 		for _, b := range rb.Blocks {
 			ret, isR := b.Instrs[len(b.Instrs)-1].(*ssa.Return)
-			if !isR || !isNilConst(ret.Results[1]) {
+			if !isR || !isNilConst(retVal(ret, 1)) {
 				continue
 			}
 			g := cd.guardOf(b)
